@@ -2604,18 +2604,21 @@ class AggregateBase(UnitsManaged, Saveable, OpenSystem):
         rho0 = numpy.zeros((dim, dim),dtype=numpy.complex128)
 
 
+        # FIXME: we assume only single exciton band
+
+        ens = numpy.zeros(dim-start, dtype=numpy.float64)
+
+        # we specify the basis from outside. This allows to choose
+        # canonical equilibrium in arbitrary basis
+        for i in range(start, dim):
+            ens[i-start] = numpy.real(HH[i,i] - subtract[i-start])
+
         if temp == 0.0:
-            rho0[start,start] = 1.0
+            # zero temperature limit: the state of lowest energy
+            imin = start + numpy.argmin(ens)
+            rho0[imin,imin] = 1.0
 
         else:
-            # FIXME: we assume only single exciton band
-
-            ens = numpy.zeros(dim-start, dtype=numpy.float64)
-
-            # we specify the basis from outside. This allows to choose
-            # canonical equilibrium in arbitrary basis
-            for i in range(start, dim):
-                ens[i-start] = numpy.real(HH[i,i] - subtract[i-start])
 
             # shift by the lowest energy: the populations do not change,
             # but the exponentials cannot all underflow
